@@ -315,6 +315,17 @@ def _liveness_methods(ctx: Ctx) -> set[str]:
     return out
 
 
+def _request_arg(call: ast.Call, rq) -> ast.AST | None:
+    """The message handed to the child's request method, passed by position or by keyword."""
+    if call.args:
+        return call.args[0]
+    pname = rq.positional[1] if len(rq.positional) > 1 else None
+    for k in call.keywords:
+        if k.arg is not None and k.arg == pname:
+            return k.value
+    return None
+
+
 def protocol_tables(ctx: Ctx):
     """Literals written / read on each side of the pipe protocol."""
     m = ctx.repo.module(MOD)
@@ -331,8 +342,8 @@ def protocol_tables(ctx: Ctx):
     c2p_written: set[str] = set()
     for mth in child_cls.methods.values():
         for call in calls_in(mth):
-            if isinstance(call.func, ast.Attribute) and call.func.attr == _request_method(child_cls).name and call.args:
-                a = call.args[0]
+            if isinstance(call.func, ast.Attribute) and call.func.attr == _request_method(child_cls).name and _request_arg(call, _request_method(child_cls)) is not None:
+                a = _request_arg(call, _request_method(child_cls))
                 if isinstance(a, ast.Constant) and isinstance(a.value, str):
                     c2p_written.add(a.value)
                 c2p_written |= _dict_keys(a, ctx, mth)
@@ -434,8 +445,8 @@ def c20_4(ctx: Ctx) -> RuleResult:
     rq = _request_method(child_cls)
     for mth in child_cls.methods.values():
         for call in calls_in(mth):
-            if isinstance(call.func, ast.Attribute) and rq is not None and call.func.attr == rq.name and call.args and isinstance(call.args[0], ast.Dict):
-                for k_, v_ in zip(call.args[0].keys, call.args[0].values):
+            if isinstance(call.func, ast.Attribute) and rq is not None and call.func.attr == rq.name and isinstance(_request_arg(call, rq), ast.Dict):
+                for k_, v_ in zip(_request_arg(call, rq).keys, _request_arg(call, rq).values):
                     if isinstance(k_, ast.Constant) and isinstance(k_.value, str):
                         written_vals.setdefault(k_.value, []).append(v_)
 
@@ -595,8 +606,11 @@ def c20_6(ctx: Ctx) -> RuleResult:
                 makers.append((f, c))
     for f, c in makers:
         t = X.at(f, c)
-        arg = t[2][1] if len(t[2]) > 1 else None
-        ok = arg is not None and arg[0] == "sub" and arg[2] == ("const", 1) and "split" in show(arg) and t[2][0] == ("const", "optimizer")
+        # (plugin type, method) whether passed by position or by keyword
+        kw_ = dict(t[3])
+        a0 = t[2][0] if len(t[2]) > 0 else kw_.get("plugin_type")
+        arg = t[2][1] if len(t[2]) > 1 else kw_.get("method")
+        ok = arg is not None and arg[0] == "sub" and arg[2] == ("const", 1) and "split" in show(arg) and a0 == ("const", "optimizer")
         res.add(f, c, "parent and child look up the wrapped method as the part after 'external/'", ok, "" if ok else f"lookup argument `{show(arg, 60) if arg else '?'}`", construct=f"{f.name}: wrapped method lookup")
     res.floor = 3
     return res
